@@ -3,8 +3,8 @@
    filecmp.dircmp / shutil.copytree as used by them.
 
    The model follows the code path by path, INCLUDING ITS DEFECTS.  Every defect is localised in one
-   definition that consults a switch of the record [cfg]; [cfg_current] describes /repo as it is,
-   [cfg_fixed] the repaired behaviour proposed in notes/C15.md.  When a fix lands in /repo, flip the
+   definition that consults a switch of the record [cfg]; [cfg_current] describes /repo as it is (seven
+   of the repairs of notes/C13-15.md have landed), [cfg_fixed] has every proposed repair.  When a fix lands in /repo, flip the
    corresponding field of [cfg_current] (nothing else has to change). *)
 From SV Require Import Base Json Canon.
 
@@ -53,9 +53,12 @@ Record cfg := {
   fix_shared : bool   (* ByKey keeps its skipped keys per call (thread pool) and clear() is gated   *)
 }.
 
+(* /repo at the current head: F3 (9f55003), F5 (0ec1e88), F4 (6b3ddc7), F16 + root (7de64dd), dryinit
+   (e70794c), ignore (769373d), implicit (fbe1a6a) are repaired; the exclude patterns inside copytree
+   (fix_excl) and the ByKey state shared by the thread pool (fix_shared) are open known findings *)
 Definition cfg_current : cfg :=
-  {| fix_F3 := false; fix_F4 := false; fix_F5 := false; fix_F16 := false; fix_root := false;
-     fix_excl := false; fix_dryinit := false; fix_ignore := false; fix_implicit := false;
+  {| fix_F3 := true; fix_F4 := true; fix_F5 := true; fix_F16 := true; fix_root := true;
+     fix_excl := false; fix_dryinit := true; fix_ignore := true; fix_implicit := true;
      fix_shared := false |}.
 Definition cfg_fixed : cfg :=
   {| fix_F3 := true; fix_F4 := true; fix_F5 := true; fix_F16 := true; fix_root := true;
